@@ -15,7 +15,7 @@ the explicit inputs hold), and when the scenario gives no collateral the builder
 inputs or the wallet at 'collateral_change' (default: the change address).  The builder's inputs / collaterals after the
 build are returned next to the transaction."""
 from _pre import *
-from pycardano import (Address, Network, TransactionBuilder, TransactionInput, TransactionOutput, TransactionId,
+from pycardano import (Address, PointerAddress, Network, TransactionBuilder, TransactionInput, TransactionOutput, TransactionId,
                        UTxO, Value, MultiAsset, Asset, AssetName, VerificationKeyHash, ScriptHash, PoolKeyHash,
                        ScriptPubkey, ScriptAll, ScriptAny, ScriptNofK, InvalidBefore, InvalidHereAfter,
                        Withdrawals, ProtocolParameters, GenesisParameters, ChainContext,
@@ -196,7 +196,9 @@ def prepare(sc):
             pay_part = att_scripts[pay[1]].hash()
         else:
             pay_part = cred_obj(pay)
-        st = cred_obj(u['stake']) if u.get('stake') else None
+        st = None
+        if u.get('stake'):
+            st = PointerAddress(*u['stake'][1:]) if u['stake'][0] == 'ptr' else cred_obj(u['stake'])
         addr = Address(pay_part, st, network=NET)
         amount = Value(u['coin'])
         if u.get('tokens'):
